@@ -17,8 +17,10 @@ def run(rep, tier):
     kernels.run_generators(rep, ["reorder_vector", "reorder_matrix", "trace_out_vector", "trace_out_matrix"])
     from vf.pyvc import tensors
     tensors.run_tensor_contracts(rep, ["C02"])
+    kernels.run_delegation(rep, ['trace_out'])
     from vf.pyvc import kronexec
     kronexec.run_combine(rep)
+    kronexec.run_envelope_combine(rep)
     B.run_b(rep, morecells.trace_out_cells(tier, common.seed()), ["C02"], tier=tier)
     B.run_b(rep, morecells.structural_cells(tier, common.seed()), ["C02"], tier=tier)
     if tier == "thorough":
